@@ -663,8 +663,9 @@ func zeroTerm(t types.Type, v value) string {
 	case symI:
 		return fmt.Sprintf("(= %s %s)", x.t, bvConst(0, x.w))
 	case symF:
-		// reflect.IsZero for floats: bits == 0 (i.e. +0 only)
-		return fmt.Sprintf("(and (fp.isZero %s) (fp.isPositive %s))", x.t, x.t)
+		// reflect.IsZero for floats since Go 1.22: v.Float() == 0, i.e. +0 and -0 (the conformance
+		// replay of the thorough tier caught the older bits == 0 model on x = -0)
+		return fmt.Sprintf("(fp.isZero %s)", x.t)
 	case symB:
 		return mkNot(x.t)
 	case symStr:
@@ -726,9 +727,9 @@ func isZeroConcrete(t types.Type, v value) bool {
 	case uintptr:
 		return x == 0
 	case float32:
-		return math.Float32bits(x) == 0
+		return x == 0
 	case float64:
-		return math.Float64bits(x) == 0
+		return x == 0
 	case complex64:
 		return x == 0
 	case complex128:
